@@ -5,7 +5,8 @@
 From Coq Require Import Reals ZArith List Floats.
 From Celer Require Import Base.Num Base.NumR Base.NumF C18.Algorithms C18.Grids C18.GridProofs C14.Calc
   C14.XsProofs C14.RangeProofs C14.LossProofs C14.MscProofs C14.LossWitness C14.LossExample C18.GridFlocq C14.Builder C14.BuilderProofs
-  C14.BuilderWitness.
+  C14.BuilderWitness C14.Generic C14.GenericProofs C14.RangeClampProofs C14.GeantBuilderProofs
+  C14.LossMonoProofs C14.LossMonoExample C14.GeantBuilderProofs2.
 Import ListNotations.
 Local Open Scope R_scope.
 
@@ -203,3 +204,204 @@ Theorem C14_builder_uncorrected_refuted :
     PrimFloat.ltb (PrimFloat.abs (PrimFloat.sub (ug_at (ug_from_bounds lmin lmax n) k) le)) 0x1p-48%float = true.
 Proof. exact build_prime_uncorrected_refuted. Qed.
 Print Assumptions C14_builder_uncorrected_refuted.
+
+(** ** GenericCalculator (celeritas/grid/GenericCalculator.hh): linear interpolation on a
+    NONUNIFORM grid, end values extended outward as constants.  [generic_valid] = the
+    constructor's preconditions (x strictly increasing, >= 2 points, |y| = |x|). *)
+Theorem C14_generic_at_knots : forall g, generic_valid g -> forall i, (i < length (gg_x g))%nat ->
+  generic_calc g (get 0 (gg_x g) i) = generic_at g i.
+Proof. exact generic_at_knots. Qed.
+Print Assumptions C14_generic_at_knots.
+
+Theorem C14_generic_between : forall g, generic_valid g -> forall x,
+  get 0 (gg_x g) 0 <= x < get 0 (gg_x g) (length (gg_x g) - 1) ->
+  let i := nu_find (gg_x g) x in
+  (i + 1 < length (gg_x g))%nat /\ get 0 (gg_x g) i <= x < get 0 (gg_x g) (i + 1) /\
+  Rmin (generic_at g i) (generic_at g (i + 1)) <= generic_calc g x
+    <= Rmax (generic_at g i) (generic_at g (i + 1)).
+Proof. exact generic_between_found. Qed.
+Print Assumptions C14_generic_between.
+
+(** on every closed bin the lookup is the bin's straight line ... *)
+Theorem C14_generic_on_closed_bin : forall g, generic_valid g -> forall x i, (i + 1 < length (gg_x g))%nat ->
+  get 0 (gg_x g) i <= x <= get 0 (gg_x g) (i + 1) ->
+  generic_calc g x = lin_interp (get 0 (gg_x g) i) (generic_at g i)
+                                (get 0 (gg_x g) (i + 1)) (generic_at g (i + 1)) x.
+Proof. exact generic_on_closed_bin. Qed.
+Print Assumptions C14_generic_on_closed_bin.
+
+(** ... and it is continuous at EVERY real x (knots, bin interiors, both ends, outside) *)
+Theorem C14_generic_continuous : forall g, generic_valid g -> forall x, continuity_pt (generic_calc g) x.
+Proof. exact generic_continuous. Qed.
+Print Assumptions C14_generic_continuous.
+
+Theorem C14_generic_clamping : forall g, generic_valid g -> forall x,
+  (x <= get 0 (gg_x g) 0 -> generic_calc g x = generic_at g 0) /\
+  (get 0 (gg_x g) (length (gg_x g) - 1) <= x -> generic_calc g x = generic_at g (length (gg_x g) - 1)).
+Proof. exact generic_clamping. Qed.
+Print Assumptions C14_generic_clamping.
+
+Theorem C14_generic_nonneg : forall g, generic_valid g ->
+  (forall i, (i < length (gg_x g))%nat -> 0 <= generic_at g i) -> forall x, 0 <= generic_calc g x.
+Proof. exact generic_nonneg. Qed.
+Print Assumptions C14_generic_nonneg.
+
+Theorem C14_generic_monotone : forall g, generic_valid g ->
+  (forall i j, (i <= j)%nat -> (j < length (gg_x g))%nat -> get 0 (gg_y g) i <= get 0 (gg_y g) j) ->
+  forall x1 x2, x1 <= x2 -> generic_calc g x1 <= generic_calc g x2.
+Proof. exact generic_monotone. Qed.
+Print Assumptions C14_generic_monotone.
+
+Theorem C14_generic_strictly_monotone : forall g, generic_valid g -> increasing (gg_y g) ->
+  forall x1 x2, get 0 (gg_x g) 0 <= x1 -> x1 < x2 -> x2 <= get 0 (gg_x g) (length (gg_x g) - 1) ->
+  generic_calc g x1 < generic_calc g x2.
+Proof. exact generic_strictly_monotone. Qed.
+Print Assumptions C14_generic_strictly_monotone.
+
+(** from_inverse / make_inverse: the inverse function on [x_front, x_back], composed with
+    the clamp outside *)
+Theorem C14_generic_inverse : forall g, generic_valid g -> increasing (gg_y g) -> forall x,
+  generic_calc (generic_inverse g) (generic_calc g x)
+  = Rmax (get 0 (gg_x g) 0) (Rmin x (get 0 (gg_x g) (length (gg_x g) - 1))).
+Proof. exact generic_inverse_clamp. Qed.
+Print Assumptions C14_generic_inverse.
+
+(** ** Range / inverse range on the WHOLE positive axis: identity on the table and on the
+    sqrt(E) / r^2 parts below it, the top clamp above it; and the documented pieces *)
+Theorem C14_range_inverse_clamp : forall g, range_valid g -> forall E, 0 < E ->
+  inv_range_calc g (range_calc g E) = Rmin E (knot g (ug_size (xg_loge g) - 1)).
+Proof. exact range_inverse_clamp. Qed.
+Print Assumptions C14_range_inverse_clamp.
+
+Theorem C14_inverse_range_clamp : forall g, range_valid g -> forall r, 0 < r ->
+  range_calc g (inv_range_calc g r) = Rmin r (rv g (ug_size (xg_loge g) - 1)).
+Proof. exact inverse_range_clamp. Qed.
+Print Assumptions C14_inverse_range_clamp.
+
+Theorem C14_range_pieces : forall g, range_valid g -> forall E, 0 < E ->
+  (E <= knot g 0 -> range_calc g E = rv g 0 * R_sqrt.sqrt (E / knot g 0)) /\
+  (knot g (ug_size (xg_loge g) - 1) <= E -> range_calc g E = rv g (ug_size (xg_loge g) - 1)).
+Proof. exact range_pieces. Qed.
+Print Assumptions C14_range_pieces.
+
+Theorem C14_inverse_range_pieces : forall g, range_valid g -> forall r,
+  (r < rv g 0 -> inv_range_calc g r = knot g 0 * ((r / rv g 0) * (r / rv g 0))) /\
+  (rv g (ug_size (xg_loge g) - 1) <= r -> inv_range_calc g r = knot g (ug_size (xg_loge g) - 1)).
+Proof. exact inverse_range_pieces. Qed.
+Print Assumptions C14_inverse_range_pieces.
+
+(** ** ValueGridXsBuilder::from_geant (ValueGridBuilder.cc) *)
+Theorem C14_from_geant_concat : forall (l lp : list R), (1 <= length l)%nat ->
+  let xs := removelast l ++ lp in
+  length xs = (length l + length lp - 1)%nat /\
+  (forall i, (i < length l - 1)%nat -> get 0 xs i = get 0 l i) /\
+  (forall j, get 0 xs (length l - 1 + j) = get 0 lp j).
+Proof. exact from_geant_concat. Qed.
+Print Assumptions C14_from_geant_concat.
+
+(** end to end: imported lambda on E_0..E_{nl-1} and lambda_prim on E_{nl-1}..E_{nl+nu-2}
+    (E_j = exp (a + h j), log spacing h > 0 larger than soft_equal's tolerance): from_geant
+    does not throw, the built XsGridData is valid with the imported energies as knots and the
+    prime index at the coincident point, XsCalculator[i] = lambda_i below it and
+    lambda_prim_j / E_j from it on *)
+Theorem C14_from_geant_reproduces : forall rel abs a h nl nu (lambda lambda_prim : list R),
+  0 <= rel -> 0 < abs -> 0 < h -> (2 <= nl)%nat -> (2 <= nu)%nat ->
+  length lambda = nl -> length lambda_prim = nu ->
+  let le := geant_energies a h 0 nl in
+  let pe := geant_energies a h (nl - 1) nu in
+  let N := Z.of_nat (nl + nu - 1) in
+  let grid := ug_from_bounds a (a + h * IZR (N - 1)) N in
+  let k := Z.of_nat (nl - 1) in
+  (N < no_scaling)%Z ->
+  Rmax abs (rel * Rmax (Rabs (ug_at grid (k + 1))) (Rabs (ug_at grid k))) <= ug_delta grid ->
+  exists g, xs_built_grid rel abs (from_geant rel abs le lambda pe lambda_prim) = Some g /\
+    xs_valid g /\ ug_size (xg_loge g) = N /\ xg_prime g = k /\
+    (forall i, (i < nl - 1)%nat ->
+       knot g (Z.of_nat i) = get 0 le i /\ xs_at g (Z.of_nat i) = get 0 lambda i) /\
+    (forall j, (j < nu)%nat ->
+       knot g (k + Z.of_nat j) = get 0 pe j /\
+       xs_at g (k + Z.of_nat j) = get 0 lambda_prim j / get 0 pe j).
+Proof. exact from_geant_reproduces. Qed.
+Print Assumptions C14_from_geant_reproduces.
+
+(** ** calc_mean_energy_loss: the positive monotonicity statements beside the refutation.
+    [loss_monotone] = forall 0 < s1 <= s2 <= range, loss s1 <= loss s2. *)
+(** exact characterisation: monotone iff the range-based loss at the switch step
+    s* = lll E / (dE/dx) is at least lll E (and always if the switch is beyond the range) *)
+Theorem C14_mean_loss_monotone_iff_switch : forall dedx rng, xs_valid dedx -> vals_nonneg dedx ->
+  range_valid rng -> forall lll E range, 0 < lll <= 1 -> 0 < E -> 0 < range <= range_calc rng E ->
+  0 < xs_calc dedx E -> E * lll / xs_calc dedx E <= range ->
+  (loss_monotone dedx rng lll E range <->
+   E * lll <= mean_loss dedx rng lll E range (E * lll / xs_calc dedx E)).
+Proof. exact mean_loss_monotone_iff_switch. Qed.
+Print Assumptions C14_mean_loss_monotone_iff_switch.
+
+Theorem C14_mean_loss_monotone_all_linear : forall dedx rng, xs_valid dedx -> vals_nonneg dedx ->
+  range_valid rng -> forall lll E range, 0 < lll <= 1 -> 0 < E -> 0 < range <= range_calc rng E ->
+  range * xs_calc dedx E < E * lll -> loss_monotone dedx rng lll E range.
+Proof. exact mean_loss_monotone_all_linear. Qed.
+Print Assumptions C14_mean_loss_monotone_all_linear.
+
+(** chord condition on the inverse range curve *)
+Theorem C14_mean_loss_monotone_chord : forall dedx rng, xs_valid dedx -> vals_nonneg dedx ->
+  range_valid rng -> forall lll E range, 0 < lll <= 1 -> 0 < E -> 0 < range <= range_calc rng E ->
+  (forall r, 0 <= r < range ->
+     xs_calc dedx E * (range - r) <= inv_range_calc rng range - inv_range_calc rng r) ->
+  loss_monotone dedx rng lll E range.
+Proof. exact mean_loss_monotone_chord. Qed.
+Print Assumptions C14_mean_loss_monotone_chord.
+
+(** structural condition: every tabulated Delta E / Delta r that starts below the range is at
+    least dE/dx(E), and so is the chord from the origin on the power-law part *)
+Theorem C14_mean_loss_monotone_slopes : forall dedx rng, xs_valid dedx -> vals_nonneg dedx ->
+  range_valid rng -> forall lll E range, 0 < lll <= 1 -> 0 < E -> 0 < range <= range_calc rng E ->
+  (forall k, (0 <= k)%Z -> (k + 1 < ug_size (xg_loge rng))%Z -> rv rng k < range ->
+     xs_calc dedx E * (rv rng (k + 1) - rv rng k) <= knot rng (k + 1) - knot rng k) ->
+  xs_calc dedx E * Rmin range (rv rng 0) <= inv_range_calc rng (Rmin range (rv rng 0)) ->
+  loss_monotone dedx rng lll E range.
+Proof. exact mean_loss_monotone_slopes. Qed.
+Print Assumptions C14_mean_loss_monotone_slopes.
+
+(** consistency hypothesis: the range table is the trapezoid integral of 1/(dE/dx) over the
+    same grid; then it suffices that dE/dx(E) is not above the tabulated dE/dx of the bins that
+    start below the range.  (With dE/dx rising towards E this fails, and so does the
+    conclusion: C14_mean_loss_monotone_refuted.) *)
+Theorem C14_mean_loss_monotone_consistent : forall dedx rng, xs_valid dedx -> vals_nonneg dedx ->
+  range_valid rng -> forall lll E range, 0 < lll <= 1 -> 0 < E -> 0 < range <= range_calc rng E ->
+  (xg_loge dedx = xg_loge rng /\
+   forall i, (0 <= i)%Z -> (i + 1 < ug_size (xg_loge rng))%Z ->
+     rv rng (i + 1) - rv rng i
+     = (knot rng (i + 1) - knot rng i) * (1 / xs_at dedx i + 1 / xs_at dedx (i + 1)) / 2) ->
+  (forall k, (0 <= k)%Z -> (k + 1 < ug_size (xg_loge rng))%Z -> rv rng k < range ->
+     xs_calc dedx E <= xs_at dedx k /\ xs_calc dedx E <= xs_at dedx (k + 1)) ->
+  xs_calc dedx E * Rmin range (rv rng 0) <= inv_range_calc rng (Rmin range (rv rng 0)) ->
+  loss_monotone dedx rng lll E range.
+Proof. exact mean_loss_monotone_consistent. Qed.
+Print Assumptions C14_mean_loss_monotone_consistent.
+
+(** from_scaled (every point 1/E-scaled, prime index 0) and ValueGridLogBuilder::from_geant /
+    from_range (no scaling): the built grid has the imported energies as knots and the
+    calculator reproduces the imported values at every knot *)
+Theorem C14_from_scaled_reproduces : forall rel abs a h n (vals : list R),
+  0 <= rel -> 0 < abs -> 0 < h -> (2 <= n)%nat -> length vals = n ->
+  let es := geant_energies a h 0 n in
+  let N := Z.of_nat n in
+  let grid := ug_from_bounds a (a + h * IZR (N - 1)) N in
+  (N < no_scaling)%Z ->
+  Rmax abs (rel * Rmax (Rabs (ug_at grid (0 + 1))) (Rabs (ug_at grid 0))) <= ug_delta grid ->
+  exists g, xs_built_grid rel abs (from_scaled es vals) = Some g /\
+    xs_valid g /\ xg_prime g = 0%Z /\ ug_size (xg_loge g) = N /\
+    forall i, (i < n)%nat ->
+      knot g (Z.of_nat i) = get 0 es i /\ xs_at g (Z.of_nat i) = get 0 vals i / get 0 es i.
+Proof. exact from_scaled_reproduces. Qed.
+Print Assumptions C14_from_scaled_reproduces.
+
+Theorem C14_log_from_geant_reproduces : forall a h n (vals : list R),
+  0 < h -> (2 <= n)%nat -> length vals = n ->
+  let es := geant_energies a h 0 n in
+  (Z.of_nat n < no_scaling)%Z ->
+  let g := log_built_grid (log_from_geant es vals) in
+  xs_valid g /\ xg_prime g = no_scaling /\ ug_size (xg_loge g) = Z.of_nat n /\
+  forall i, (i < n)%nat -> knot g (Z.of_nat i) = get 0 es i /\ xs_at g (Z.of_nat i) = get 0 vals i.
+Proof. exact log_from_geant_reproduces. Qed.
+Print Assumptions C14_log_from_geant_reproduces.
